@@ -9,7 +9,7 @@ IDS = {}
 
 def ids(props, table):
     for i, meaning in table.items():
-        IDS[i] = (set(props.split()), meaning)
+        IDS[i] = (IDS.get(i, (set(), ''))[0] | set(props.split()), meaning)
 
 
 ids('C01 C05 C07', {100: 'pre-state construction: insert of a fresh key returned Some'})
@@ -22,6 +22,7 @@ ids('C05', {211: 'iteration count != len()', 212: 'a key is yielded twice', 213:
 ids('C02', {301: 'more destructions than creations', 302: 'an element was leaked or destroyed twice (dropped != created)',
             901: 'drop of a non-live object (double drop / drop of uninitialised slot)', 902: 'clone of a non-live object',
             903: 'comparison of a non-live object', 904: 'iteration yielded a non-live object', 905: 'borrow of a non-live object'})
+ids('C07', {482: 'cleared set not reusable', 491: 'drain: yielded elements', 492: 'drain: count'})
 ids('C01', {401: 'insert: return value', 411: 'insert_key_value: return value', 421: 'checked_insert: outer Option',
             422: 'checked_insert: inner value', 431: 'get', 432: 'get_mut', 433: 'get_key_value', 434: 'contains_key',
             435: 'lookup by borrowed form disagrees with lookup by key', 436: 'write through get_mut not observed',
@@ -34,6 +35,21 @@ ids('C02 C12', {402: 'insert: returned object is not the old value', 403: 'inser
                 423: 'checked_insert: arguments not destroyed exactly once', 452: 'remove: returned object is not the stored value',
                 453: 'remove: stored key not destroyed', 462: 'remove_entry: returned objects are not the stored ones',
                 481: 'clear: not every stored object destroyed'})
+ids('C08', {606: 'iterator not fused'})
+ids('C09 C10', {601: 'ExactSizeIterator::len() wrong', 602: 'size_hint() wrong', 603: 'more items than capacity', 604: 'number of yielded items',
+                605: 'a stored entry was not yielded exactly once', 606: 'iterator not fused / not empty after the end', 607: 'second traversal differs',
+                608: 'cloned iterator diverges', 609: 'count() wrong', 610: 'write through iter_mut/values_mut lost',
+                611: 'yielded pair is not a stored association'})
+ids('C10', {612: 'container not empty after drain', 613: 'container not reusable after drain'})
+ids('C02 C10', {614: 'elements not released exactly once when a consuming iterator is dropped / excess release when forgotten'})
+ids('C07', {701: 'Set::insert return', 702: 'Set::replace return', 703: 'Set::contains', 704: 'Set::get', 705: 'Set::remove return',
+            706: 'Set::take return', 707: 'Set::retain predicate saw a non-live element', 708: 'Extend did not pull the source exactly once per item'})
+ids('C12 C02', {709: 'Set: stored/returned element object identity'})
+ids('C08', {801: 'size_hint does not bracket the number of items still to come', 802: 'set algebra: element multiplicity differs from the mathematical result',
+            803: 'set algebra: number of yielded items', 804: 'yielded reference does not point into the left operand', 805: 'fold differs from stepping with next',
+            806: 'count() differs from stepping', 807: 'is_subset', 808: 'is_superset', 809: 'is_disjoint', 810: 'operator - result'})
+ids('C08 C14', {811: 'operand modified'})
+ids('C14', {820: 'equality differs from extensional equality', 821: 'equality not symmetric', 822: 'equality not reflexive'})
 ids('C06', {501: 'returned reference points outside the container value'})
 
 # engine-level result classes that count for every property whose harness shows them
@@ -57,8 +73,33 @@ fam('c01_insert c01_insert_kv', 'g_map', [1, 2, 3], [4, 5], profiles=('rel', 'db
 fam('c01_checked_insert c01_remove c01_remove_entry c01_index', 'g_map', [0, 1, 2, 3], [4, 5], profiles=('rel', 'dbg'))
 fam('c01_lookup c01_retain c01_clear c01_drain_all', 'g_map', [0, 1, 2, 3], [4, 5], dprofiles=('rel', 'dbg'))
 
+fam('c09_iter c09_keys c09_values c09_iter_mut c09_values_mut c09_set_iter', 'g_iter', [0, 1, 2, 3], [4, 5], dprofiles=('rel', 'dbg'))
+fam('c09_defaults', 'g_iter', [0, 2], [])
+fam('c10_into_iter c10_into_keys c10_into_values c10_set_into_iter c10_drain c10_set_drain', 'g_iter', [0, 1, 2, 3], [4, 5], dprofiles=('rel', 'dbg'))
+
+fam('c07_insert c07_replace', 'g_set', [1, 2, 3], [4, 5], dprofiles=('rel', 'dbg'))
+fam('c07_lookup c07_remove c07_take c07_retain c07_clear c07_drain', 'g_set', [0, 1, 2, 3], [4, 5], dprofiles=('rel', 'dbg'))
+fam('c07_extend c07_extend_ref', 'g_set', [(1, 2), (2, 3), (3, 3)], [(3, 4), (4, 4)])
+
+Q8 = [(0, 0), (1, 1), (2, 2), (3, 3), (1, 3), (3, 1), (0, 2), (2, 0)]
+D8 = [(4, 4), (4, 2), (2, 4)]
+usum = None   # base unwind = max(params)+2; the harness loops over N+M items are deepened per loop
+fam('c08_union c08_intersection c08_difference c08_predicates', 'g_alg', Q8, D8)
+fam('c08_union_fold c08_intersection_fold c08_difference_fold', 'g_alg', Q8, D8)
+# symmetric_difference chains two Difference iterators, each probing the other set: the (3,3) queries need 2-10 min -> thorough
+QS = [c for c in Q8 if c != (3, 3)]
+fam('c08_symdiff c08_symdiff_fold', 'g_alg', QS, [(3, 3), (4, 2), (2, 4)])
+fam('c08_sub', 'g_alg', Q8[:6], D8)
+fam('c08_difference_ref', 'g_alg', [(1, 1), (2, 2), (3, 2), (2, 3)], [(3, 3), (4, 2)], unwind=lambda c: 9)
+fam('c14_map c14_set', 'g_alg', Q8 + [(2, 3)], [(4, 4), (4, 1), (1, 4), (5, 5)])
+
 # --------------------------------------------------------------------------------------- properties
 PROPS = {
+    'C08': dict(fams='c08_union c08_intersection c08_difference c08_symdiff c08_union_fold c08_intersection_fold c08_difference_fold c08_symdiff_fold c08_sub c08_difference_ref c08_predicates'),
+    'C14': dict(fams='c14_map c14_set'),
+    'C07': dict(fams='c07_insert c07_replace c07_lookup c07_remove c07_take c07_retain c07_clear c07_drain c07_extend c07_extend_ref'),
+    'C09': dict(fams='c09_iter c09_keys c09_values c09_iter_mut c09_values_mut c09_set_iter c09_defaults'),
+    'C10': dict(fams='c10_into_iter c10_into_keys c10_into_values c10_set_into_iter c10_drain c10_set_drain'),
     'C01': dict(fams='c01_insert c01_insert_kv c01_checked_insert c01_lookup c01_index c01_remove c01_remove_entry c01_retain c01_clear c01_drain_all'),
 }
 
@@ -72,7 +113,8 @@ def obligations(prop, tier):
         for prof in (d['dprofiles'] if deep else d['profiles']):
             for c in caps:
                 h = f + ''.join('_%d' % x for x in c)
-                obs.append(Ob(h, d['group'], profile=prof, deep=deep, family=f, unwind=d['unwind']))
+                u = d['unwind'](c) if callable(d['unwind']) else d['unwind']
+                obs.append(Ob(h, d['group'], profile=prof, deep=deep, family=f, unwind=u))
     return obs
 
 
